@@ -23,4 +23,9 @@ theorem tie_bloom_methods :
       ["Add", "AddHash", "AddOutPoint", "IsLoaded", "MatchTxAndUpdate", "Matches", "MatchesOutPoint",
        "MsgFilterLoad", "Reload", "Unload"] := by decide +kernel
 
+/-- code of the package outside the methods of `Filter` that reaches into a filter (its mutex or its message) keeps the
+    same discipline: lock before the access, unlock before returning (the block scan's bit snapshot, fix 0f7bc52) -/
+theorem tie_bloom_foreign_lock_discipline :
+    Generated.bloomForeignSkeletons.all (fun m => Locking.wellBracketed m.2) = true := by decide +kernel
+
 end Bch.Tie.Locking
